@@ -80,6 +80,7 @@ func vhLetterRune(n int) string {
 // Locality of indexed columns: k columns, each with optional COLLATE and
 // ASC/DESC; what is reported for column j is what column j says.
 //verif:bounds CREATE INDEX / PRIMARY KEY / UNIQUE lists of 1..3 indexed columns, each: optional COLLATE (2 names), optional ASC/DESC — every combination
+//verif:prop C16,C20
 func VH_C16_local_indexed() {
 	k := 1 + verifChoice(3)
 	form := verifChoice(3)
